@@ -135,6 +135,7 @@ impl Aml for Path {
                 sink.byte(DUALNAMEPREFIX);
             }
             n => {
+                assert!(n <= u8::MAX as usize);
                 sink.byte(MULTINAMEPREFIX);
                 sink.byte(n as u8);
             }
@@ -264,6 +265,7 @@ pub struct Package<'a> {
 
 impl Aml for Package<'_> {
     fn to_aml_bytes(&self, sink: &mut dyn AmlSink) {
+        assert!(self.children.len() <= u8::MAX as usize);
         let mut bytes = vec![self.children.len() as u8];
         for child in &self.children {
             child.to_aml_bytes(&mut bytes);
@@ -292,6 +294,7 @@ pub struct PackageBuilder {
 
 impl Aml for PackageBuilder {
     fn to_aml_bytes(&self, sink: &mut dyn AmlSink) {
+        assert!(self.elements <= u8::MAX as usize);
         let pkg_length = create_pkg_length(self.data.len() + 1, true);
 
         sink.byte(PACKAGEOP);
@@ -388,6 +391,8 @@ fn create_pkg_length(len: usize, include_self: bool) -> Vec<u8> {
     };
 
     let length = len + if include_self { length_length } else { 0 };
+    /* The maximum package length is 2**28 */
+    assert!(length < 2usize.pow(28));
 
     match length_length {
         1 => result.push(length as u8),
@@ -880,6 +885,7 @@ impl Aml for Method<'_> {
     fn to_aml_bytes(&self, sink: &mut dyn AmlSink) {
         let mut bytes = Vec::new();
         self.path.to_aml_bytes(&mut bytes);
+        assert!(self.args <= 7);
         let flags: u8 = (self.args & 0x7) | ((self.serialized as u8) << 3);
         bytes.push(flags);
         for child in &self.children {
